@@ -334,9 +334,18 @@ def gen_suite(rng, size="small"):
             else:
                 po["set_state"] = st
                 cons["objs"][f"images_{vm}"] = {"get": prod["name"].split(".")[-1], "get_state": st, "set_state": ""}
-                # keep the suite well formed: the consumer exists only for variants the producer exists for
+                # keep the suite well formed: the consumer exists only for variants the producer exists for …
                 if vm in prod["only"]:
                     cons["only"][vm] = list(prod["only"][vm])
+                # … and uses every vm of the producer (as tutorial_get does for tutorial_gui).  Otherwise the
+                # producer is instantiated once per variant of the vm the consumer does not have, all of them
+                # providing the *same* state: the real code then makes identically named clones of the consumer
+                # (observed) and the "one producer per state" reading of the property has no answer.
+                for u in prod["vms"]:
+                    if u not in cons["vms"]:
+                        cons["vms"] = sorted(cons["vms"] + [u])
+                    if u in prod["only"] and u != vm:
+                        cons["only"][u] = list(prod["only"][u])
     if not any("normal" in t["sets"] for t in leaves):
         leaves[0]["sets"].append("normal")
     if not any("minimal" in t["sets"] for t in leaves):
@@ -465,7 +474,8 @@ test_timeout = 100
 
     order = [t["name"] for t in suite["tests"]]
     w("groups.cfg", "include groups-base.cfg\n\n" + emit(_tree(order), [], 0))
-    leaf_last = lambda s: [t["name"].split(".")[-1] for t in suite["tests"] if t["kind"] == "leaf" and s in t["sets"]]
+    leaf_last = lambda s: ([t["name"].split(".")[-1] for t in suite["tests"] if t["kind"] == "leaf" and s in t["sets"]]
+                           or ["nosuchtest"])
     w("sets.cfg", f"""include groups.cfg
 
 variants:
@@ -808,3 +818,102 @@ def candidate_producers(suite, case, worker, vm, variant, get):
         if all(allowed_variants(suite, case, worker, u, t) for u in vms if u != vm):
             out.append(t["name"])
     return out
+
+
+# ---------------------------------------------------------------------------------------------
+# abstract suite -> driver lines, and the canonical form of a real graph the resolver is compared with
+# ---------------------------------------------------------------------------------------------
+
+def parse_restr_lines(text):
+    """'only a, b\\nno c\\n' -> [(kind, 'a,b'), …] (blanks removed)"""
+    out = []
+    for line in text.splitlines():
+        line = line.strip()
+        if not line:
+            continue
+        kind, _, rest = line.partition(" ")
+        out.append((kind, rest.replace(" ", "")))
+    return out
+
+
+def test_sets(t):
+    if t["kind"] == "leaf":
+        return ["all", "leaves"] + list(t["sets"])
+    return ["all", "nonleaves"]
+
+
+def suite_lines(suite, case):
+    lines = ["s-new"]
+    for vm in suite["vms"]:
+        lines.append(f"s-vm {vm} {','.join(suite['variants'][vm])}")
+    lines.append("s-main vm1")
+    for t in suite["tests"]:
+        if t["kind"] == "noop":
+            continue
+        lines.append(f"s-test {t['name']} {_t(','.join(t['vms'] or []))} {1 if t['kind'] == 'original' else 0} "
+                     f"{';'.join(test_sets(t))}")
+        for okey, o in t["objs"].items():
+            kind, _, vm = okey.partition("_")
+            lines.append(f"s-slot {_t(vm)} {kind} {_t(o['get'])} {_t(o['get_state'])} {_t(o['set_state'])}")
+        for vm, oss in t["only"].items():
+            lines.append(f"s-only {vm} {','.join(oss)}")
+    for vm, text in case["vm_strs"].items():
+        for kind, names in parse_restr_lines(text):
+            lines.append(f"s-user {vm} {kind} {names}")
+    for kind, alts in parse_restr_lines(case["tests_str"]):
+        lines.append(f"s-sel {kind} {alts}")
+    for w in case["nets"]:
+        restr = suite["nets"].get(w.split(".")[-1], {})
+        lines.append(" ".join([f"s-worker {w}"] + [f"{vm}:{r[0]}:{','.join(r[1])}" for vm, r in restr.items()]))
+    return lines
+
+
+def variant_label(comp, suffix):
+    """short label of a vm variant from its component form (`vm1.Aos` -> Aos)"""
+    rest = comp[len(suffix) + 1:] if comp.startswith(suffix + ".") else comp
+    return rest
+
+
+def canon_real(x, label=variant_label):
+    """(node strings, edge strings, keys of nodes hanging under the shared root, clone sources) of a real graph in
+    the resolver's vocabulary; flat nodes and clone sources are not nodes of the dependency graph proper"""
+    keys = {}
+    nodes, edges, rooted, dup = [], [], [], []
+    for i, nd in enumerate(x["nodes"]):
+        if nd["flat"] or nd["clone_source"]:
+            continue
+        left = nd["setless"].split(".vms.")[0]
+        asg = sorted((o["suffix"], label(o["comp"], o["suffix"])) for o in nd["objects"] if o["key"] == "vms")
+        key = left + "|" + ",".join(f"{vm}={v}" for vm, v in asg) + "|" + nd["worker"]
+        if key in keys.values():
+            dup.append(key)
+        keys[i] = key
+        slots = []
+        for o in nd["objects"]:
+            if o["key"] == "nets" or not (o["get"] or o["set_state"]):
+                continue
+            vm = o["suffix"].split("_")[-1]
+            gs = "" if o["get_state"] == "0root" else o["get_state"]
+            slots.append(f"{vm}:{o['key']}:{o['get']}:{gs}:{o['set_state']}")
+        nodes.append(key + ";" + ("1" if nd["object_root"] else "0") + ";" + ",".join(sorted(slots)))
+    for (c, p, o) in x["setup"]:
+        if c not in keys:
+            continue
+        if x["nodes"][p]["flat"]:
+            if x["nodes"][p]["shared_root"]:
+                rooted.append(keys[c])
+            continue
+        if p not in keys:
+            edges.append(f"{keys[c]}>{_slot_of(o)}>SOURCE:{x['nodes'][p]['id']}")
+            continue
+        edges.append(f"{keys[c]}>{_slot_of(o)}>{keys[p]}")
+    return sorted(nodes), sorted(edges), sorted(set(rooted)), dup
+
+
+def _slot_of(oid):
+    suffix = oid.split("-")[0]
+    if suffix.startswith("image"):
+        return suffix.split("_")[-1] + ":images"
+    if suffix.startswith("net"):
+        return suffix + ":nets"
+    return suffix + ":vms"
